@@ -95,12 +95,20 @@ extern MPT_STRUCT(command) *mpt_command_reserve(MPT_STRUCT(array) *arr, size_t m
 		len  = msg->_used / sizeof(*cmd);
 		base = (void *) (msg+1);
 	} else {
-		if ((cmd = mpt_array_append(arr, sizeof(*cmd) * 8, 0))) {
-			static const uintptr_t firstId = 1;
-			cmd->id  = firstId;
-			cmd->cmd = log_reply;
-			cmd->arg = (void *) firstId;
+		static const uintptr_t firstId = 1;
+		/* same setup as mpt_command_set(): entries own their handler,
+		 * generic buffer operations must finalize them and never copy */
+		if (!(msg = _mpt_buffer_alloc(sizeof(*cmd) * 8, MPT_ENUM(BufferNoCopy)))) {
+			return 0;
 		}
+		msg->_content_traits = mpt_command_traits();
+		arr->_buf = msg;
+		if (!(cmd = mpt_buffer_insert(msg, 0, sizeof(*cmd)))) {
+			return 0;
+		}
+		cmd->id  = firstId;
+		cmd->cmd = log_reply;
+		cmd->arg = (void *) firstId;
 		return cmd;
 	}
 	for (i = 0; i < len; ++i) {
@@ -151,7 +159,7 @@ extern MPT_STRUCT(command) *mpt_command_reserve(MPT_STRUCT(array) *arr, size_t m
 		}
 	}
 	/* add command slot */
-	if (!(cmd = mpt_array_append(arr, sizeof(*cmd), 0))) {
+	if (!(cmd = mpt_array_insert(arr, used * sizeof(*cmd), sizeof(*cmd)))) {
 		return 0;
 	}
 	
